@@ -211,7 +211,9 @@ TYPED_SCHEMA = {
 def typed_valid(arguments):
     """Reference reading of TYPED_SCHEMA, written independently of the jsonschema package."""
     n = arguments.get('n')
-    if not isinstance(arguments.get('tok'), str) or isinstance(n, bool) or not isinstance(n, int):
+    # JSON Schema (draft 6 and later): "integer" is any number with a zero fractional part, so 5.0 and 1e49 qualify
+    integral = (isinstance(n, int) and not isinstance(n, bool)) or (isinstance(n, float) and n.is_integer())
+    if not isinstance(arguments.get('tok'), str) or not integral:
         return False
     if 'label' in arguments and arguments['label'] not in ('a', 'b'):
         return False
@@ -323,6 +325,8 @@ class Service:
                 # not a coroutine function, but it returns a coroutine: an async method behind an ordinary decorator
                 self.methods[name] = self._defer(name, body, self.methods[name])
             self.is_coro[name] = coro
+        for name in VIEW_METHODS:
+            self.is_coro[name] = flavour != 'sync'
 
     # -- wrappers ----------------------------------------------------------------------------------
     def _enter(self, name: str, args: Tuple[Any, ...], kwargs: Dict[str, Any]) -> str:
